@@ -152,6 +152,10 @@ func segmentFMP4ReadHeader(r io.ReadSeeker) (*fmp4.Init, time.Duration, error) {
 		return nil, 0, err
 	}
 
+	if mvhd.Timescale == 0 {
+		return nil, 0, fmt.Errorf("invalid mvhd timescale")
+	}
+
 	d := time.Duration(mvhd.DurationV0) * time.Second / time.Duration(mvhd.Timescale)
 
 	// read ftyp and moov
